@@ -229,7 +229,9 @@ impl Group for ReadAll {
                 _ => (0..rng.range(1, 5)).map(|_| rng.range(1, 32)).collect(),
             };
             // the list-based model is quadratic in the number of chunks: keep small-chunk runs moderate
-            let slen = if ctx.mode == Mode::Quick && !pat.is_empty() && pat.iter().all(|c| *c <= 33) { slen.min(5000) } else { slen };
+            // (in thorough mode one small-chunk run in forty keeps its full length, up to 64 KiB in single bytes)
+            let small_chunks = !pat.is_empty() && pat.iter().all(|c| *c <= 33);
+            let slen = if small_chunks && (ctx.mode == Mode::Quick || !rng.chance(1, 40)) { slen.min(5000) } else { slen };
             let max = if finite { rng.below(init_len + slen + 50).to_string() } else { "umax".into() };
             v.push(format!(
                 "c18.read {} {spare} gen:{slen}:{} {} {max}",
